@@ -228,3 +228,36 @@ def run_initialisers(ex, st, wanted=None):
         st.ret = None
         done.append(data)
     return st, done
+
+
+# ------------------------------------------------------------------------------------ heap
+def op_new(ex, st, fr, ins, name, argv):
+    n = argv[0]
+    if not tm.is_ic(n):
+        raise Unsupported('operator new with symbolic size')
+    rid = st.new_region(n.args[0], 'heap', 'new(%d)' % n.args[0])
+    return Ptr(rid, 0)
+
+
+def op_delete(ex, st, fr, ins, name, argv):
+    p = argv[0]
+    if isinstance(p, Ptr) and p.region is not None:
+        r = st.regions[p.region]
+        if r.kind != 'heap' or p.off != 0:
+            st.ub.append(('delete of a pointer not obtained from new', r.name))
+        elif not r.alive:
+            st.ub.append(('double delete', r.name))
+        r.alive = False
+    return None
+
+
+def throw_length_error(ex, st, fr, ins, name, argv):
+    st.events.append(('throw', 'std::length_error', ''))
+    st.status = 'throw:std::length_error'
+    return None
+
+
+def heap():
+    return {'_Znwm': op_new, '_Znam': op_new, '_ZdlPv': op_delete, '_ZdaPv': op_delete, '_ZdlPvm': op_delete,
+            '_ZSt20__throw_length_errorPKc': throw_length_error,
+            '_ZSt28__throw_bad_array_new_lengthv': throw_length_error, '_ZSt17__throw_bad_allocv': throw_length_error}
